@@ -105,10 +105,23 @@ def rand_value(rng, depth=0):
     return rng.choice(STRS)
 
 
+def near_miss_names(known):
+    """unknown member names that look like known ones: plausible legacy aliases (uri<->url), other
+    letter case, camelCase, '-' for '_', plural/singular, prefix/suffix"""
+    out = []
+    for k in known:
+        cands = [k.replace("uri", "url"), k.replace("url", "uri"), k.upper(), k.capitalize(), k.replace("_", "-"), k.replace("_", ""),
+                 "".join(w.capitalize() if i else w for i, w in enumerate(k.split("_"))), k + "s", k[:-1], "x_" + k, k + "_", k.replace("_in", ""),
+                 k.replace("token", "tokens"), k.replace("expires", "expire")]
+        out += [c for c in cands if c and c not in known]
+    return list(dict.fromkeys(out))
+
+
 def unknown_members(rng, known, n=None):
     out = []
+    near = near_miss_names(known)
     for _ in range(rng.randint(0, 3) if n is None else n):
-        name = rng.choice(UNKNOWN_NAMES)
+        name = rng.choice(near) if (near and rng.random() < 0.4) else rng.choice(UNKNOWN_NAMES)
         if name in known:
             continue
         out.append((name, rand_value(rng)))
